@@ -875,6 +875,11 @@ func (e *Exec) do(c *Call, ev *Event) (targets []int) {
 		} else {
 			ev.Ret = u.landmark(uint64(v))
 		}
+		// exact oracle for every index (the specification decides Select at cell boundaries only): the i-th element of the
+		// independently projected set
+		if want, ok := view32(e.bm(c.X), nil).Set.kth(i); i <= 0xFFFFFFFF && (ok != (err == nil) || ok && want != uint64(v)) {
+			ev.Aux = false
+		}
 	case "CardInRange":
 		a, b := e.rangeOf(c.C0, c.C1)
 		ev.Ret = numFromU64(e.bm(c.X).CardinalityInRange(a, b))
